@@ -442,3 +442,58 @@ def r_tuplerole(idx, rep, rule="R-TUPLEROLE", floor=8):
         node = m.const_nodes.get(alias)
         rep.check(node is not None and u(node) == target, rule, "distance3d.gjk|alias %s" % alias, m.relpath,
                   "distance3d.gjk.%s must be %s (is `%s`)" % (alias, target, u(node) if node is not None else None))
+
+
+def r_mainloop(idx, rep, rule="R-MAINLOOP"):
+    """The main loops of the two Nesterov variants are the same algorithm: gjk_nesterov_accelerated (generic colliders) and
+    run_gjk_nesterov_accelerated (primitives) differ only in how supports are obtained, how the inflation is set up and in the
+    MeshGraph-only normalised momentum.  Every other statement must have the same SHAPE in both (local names are replaced by a
+    placeholder, so the comparison does not depend on how locals are called): a one-sided edit of the bound / termination arithmetic
+    makes the two advertised-equivalent distances disagree."""
+    import difflib
+    import re
+    rep.rule(rule, "the main loops of gjk_nesterov_accelerated and run_gjk_nesterov_accelerated are statement-for-statement identical in shape apart "
+                   "from support acquisition, inflation set-up, buffer allocation and the MeshGraph-only normalised momentum", floor=1)
+    a = idx.func(N1 + "::gjk_nesterov_accelerated")
+    b = idx.func(N2 + "::run_gjk_nesterov_accelerated")
+
+    def local_names(f):
+        return {n.id for n in ast.walk(f.node) if isinstance(n, ast.Name) and isinstance(n.ctx, ast.Store)}
+    differing = ("collider0", "collider1", "minkowski_diff", "select_support")
+    # parameters other than the differing ones are placeholders too: `inflation` is a parameter of one variant and a local of the other
+    L = local_names(a) | local_names(b) | ((set(a.params()) | set(b.params())) - set(differing))
+
+    def lines(f):
+        body = [s for s in f.node.body if not (isinstance(s, ast.Expr) and isinstance(s.value, ast.Constant))]
+        txt = "\n".join(ast.unparse(s) for s in body)
+        return [re.sub(r"[A-Za-z_][A-Za-z_0-9]*", lambda m: "_" if m.group(0) in L else m.group(0), ln) for ln in txt.splitlines()]
+    la, lb = lines(a), lines(b)
+
+    def exempt(line):
+        t = line.strip()
+        if any(w in t for w in differing):
+            return True
+        if re.fullmatch(r"_ = -?[0-9.]+", t) or t in ("if _:", "else:"):
+            return True
+        if "np.empty(" in t or "np.array(" in t or ".copy()" in t or "np.zeros(" in t:
+            return True
+        # the momentum block: the generic variant has the extra MeshGraph branch (normalised directions, (i+2)/(i+3)) around the same statements
+        if "norm_vector(" in t or re.fullmatch(r"_ = \(_ \+ [12]\) / \(_ \+ 3\)", t) or t == "_ = _ * _ + (1.0 - _) * _":
+            return True
+        return False
+    bad = []
+    for l in difflib.unified_diff(la, lb, lineterm="", n=0):
+        if l.startswith(("---", "+++", "@@")):
+            continue
+        if not exempt(l[1:]):
+            bad.append(l)
+    key = "%s|same statements as %s" % (a.key, b.name)
+    rep.check(not bad, rule, key, a.where,
+              "the two Nesterov main loops diverge outside the known differences: %s (`-` generic variant, `+` primitives variant, local names shown as `_`) — one of "
+              "them was edited alone, so gjk_nesterov_accelerated_distance and gjk_nesterov_accelerated_primitives_distance no longer run the same algorithm" % bad[:4],
+              "%d / %d statement lines compared" % (len(la), len(lb)))
+    # and the plain (non-accelerated) momentum statements occur in both
+    def mom(ls):
+        return {t.strip() for t in ls if t.strip() in ("_ = (_ + 1) / (_ + 3)", "_ = _ * _ + (1.0 - _) * _")}
+    rep.check(mom(la) == mom(lb) and len(mom(la)) == 2, rule, "%s|plain momentum block" % a.key, a.where,
+              "the non-normalised momentum update differs between the variants: %s vs %s" % (sorted(mom(la)), sorted(mom(lb))), "identical")
